@@ -672,6 +672,28 @@ def sweep(ctx, exe, fixbits, plan_exh, n_random, n_big, maxlen, label=''):
     return total
 
 
+def replay_witnesses(ctx):
+    """the recorded witnesses of the known findings are replayed first (a finding whose witness no longer fails is simply
+    not reported; any other clause that breaks on a witness is reported like any failure)"""
+    import glob
+    n = 0
+    for f in sorted(glob.glob(os.path.join(vf.VERIF, 'findings', 'C10-*.json'))):
+        try: rec = json.load(open(f))
+        except Exception: continue
+        for w in rec.get('witnesses', []):
+            case = w.get('input') or {}
+            try:
+                g = start_geometry(case['init'])
+                out = run_impl_sequence(g, [_t(o) for o in case['ops']])
+            except Exception:
+                continue
+            n += 1
+            for t, key, v in out.fails:
+                c = dict(case); c['ops'] = [list(o) for o in case['ops'][:t + 1]]
+                ctx.failure('known-finding-witnesses', key, c, '; '.join(v), L.REQUIRED.get(key.split(':')[-1], 'the property statement'))
+    ctx.oracle_cases('known-finding-witnesses', n)
+
+
 def run(ctx):
     ctx.rule = ('edit sequences on the real mulgrid, each compared step by step with the extracted Coq model and checked against the statement '
                 'clause by clause: (1) exhaustive: from each small start geometry (2x2 and 3x2 rectangular with different conventions / atmosphere types, '
@@ -708,6 +730,7 @@ def run(ctx):
     else:
         plan = [(r22, 2, (1, 1)), (r22, 1, (2,)), (r32, 2, (0, 0)), (mix, 2, (0, 1)), (mix, 1, (2,)), (r22b, 2, (0, 0))]
         nrand, nbig = 160, 32
+    replay_witnesses(ctx)
     tot = sweep(ctx, exe, fixbits, plan, nrand, nbig, 25)
     ctx.extra['exhaustive'] = True
     ctx.extra['input_distribution'] = {
